@@ -1372,6 +1372,13 @@ def skp1(model):
         def visit_Name(self, n):
             return ast.Name(id=TOK, ctx=ast.Load()) if n.id in walrus else n
     walrus = {x.target.id for x in ast.walk(lp.test) if isinstance(x, ast.NamedExpr)}
+    # a local that holds the current token: every assignment of it in the function is buf.cur() / buf.next()
+    for nm in {x.id for x in ast.walk(lp.test) if isinstance(x, ast.Name)}:
+        asg = [a for a in iter_scope(f.node) if isinstance(a, ast.Assign) and any(
+            isinstance(t_, ast.Name) and t_.id == nm for t_ in a.targets)]
+        if asg and all(isinstance(a.value, ast.Call) and T_call_name(a.value) in ('cur', 'next') for a in asg) \
+                and nm not in f.params:
+            walrus.add(nm)
     # `while True: cur = buf.cur(); if <stop>: break; buf.next()`: a token is taken if the loop test holds and
     # no stop condition in front of next() does
     parts = [lp.test]
@@ -1495,6 +1502,9 @@ def ck14(model):
                         if isinstance(p, ast.UnaryOp) and isinstance(p.op, ast.Not):
                             neg = not neg
                         p = getattr(p, '_parent', None)
+                    # `if not m.group(0).isalpha() or ...: continue` filters as well
+                    if isinstance(p, ast.If) and always_exits(p.body) and not p.orelse:
+                        neg = not neg
                     if not neg:
                         filt = True
         if explicit_ok:
